@@ -47,7 +47,11 @@ def inlined(prog, body, extra_opaque=(), max_callee_blocks=220, sinks=None):
             return False
         nb = len([1 for b in c[0].blocks.values() if not b.cleanup])
         return nb <= max_callee_blocks and _has_logic(c[0])
-    return inline(prog, body, max_depth=5, max_blocks=2500, only=only)
+    b = inline(prog, body, max_depth=5, max_blocks=2500, only=only)
+    if not os.environ.get('VERIF_NO_THREAD'):
+        from .simplify import thread
+        thread(b)
+    return b
 
 
 def compute(prog, name, extra_opaque=(), effects=False, sinks=None, closures=False, guarded=False):
